@@ -42,6 +42,13 @@ def fault_matrix(ctx):
                         run.dgi(j)
                 run.solve()
                 fired = any(e["ev"] == "fail" for e in run.events)
+                if fired and rng.random() < 0.4:
+                    # beyond C16's statement (specification growth): the solver is used further after the contained failure; the trace
+                    # specification models what the code does then - the interval popped for the failed evaluation stays out of the queue
+                    # until the next full recalculation - and every later trial must follow the rule on the remaining intervals
+                    for j in scen.compositions(rng, rng.randint(2, 10)):
+                        run.dgi(j)
+                    run.solve()
                 cases.append({"base": b, "n": n, "objective": name, "k": k, "exc": exc.__name__, "mode": mode,
                               "fired_in_solve": fired, "trials_of_base": nglob})
                 runs.append(run)
